@@ -20,6 +20,7 @@ CONSTANTS
   HandlerIds = {1, 2}
   Kinds = {"fd", "tmr", "sgn", "task"}
   Keys = {1}
+  BadKeys = {}
   SrcOpts <- Opts_all
   EvKinds = {"ps", "fd", "tmr", "sgn", "task", "tb", "bt", "tick"}
   MaxBatch = 2
